@@ -17,6 +17,7 @@ EXPLANATION = ("Static MIR rules over crate mla: (R03.1) for every call site of 
                "Ok(..) result is reachable on the wrong-tag-consistent paths from its Err edge, so an altered chunk is never skipped; references to the "
                "unauthenticated functions through fn pointers count as calls for the allowlist of R03.2. "
                "(R03.6) both chunk loaders empty the plaintext cache (clear / take / replace / assignment) before the single read of the chunk, so a failed or short load never leaves the previous chunk's plaintext to be served. "
+               "(R03.7) the buffer handed to decrypt is filled by read_to_end(take(inner, constant)), never by one raw read (an intact chunk delivered in pieces must not fail its tag); (R03.8) the End arm of the reader's seek removes TAG_LENGTH from the in-chunk remainder only where that remainder is not 0 (a stream whose last chunk is full ends on a chunk boundary), so the footer of every unaltered archive is found. "
                "Decides the structural clause, not the runtime behaviour.")
 TRUSTED = ['rustc MIR construction and callee resolution', 'subtle::ConstantTimeEq', 'RustCrypto aes/ctr/ghash', 'std::io']
 ASSUMPTIONS = ['GHASH/CTR compute the standard tag (numeric; not decided)', 'dependencies are not analysed']
